@@ -10,8 +10,8 @@ struct C20 : Prop {
 	const char *id() const override { return "C20"; }
 	std::string rule() const override {
 		return "plan = generated configurations (features and initial values on any subset of boards / accessories / peripherals / train functions) x node trees in which any "
-		       "subset of the configured boards is present; nodes answer FEATURE_SET with the requested or a different value; delayed / chunked answers and spontaneous occupancy "
-		       "traffic during start-up; the dialogue is repeated through bidib_send_sys_reset. Oracle over the decoded downlink transcript of each start / reset: the multiset "
+		       "subset of the configured boards is present; nodes answer FEATURE_SET with the requested or a different value; delayed / chunked answers, slow nodes (every confirmation from the n-th on seconds late), single confirmations that are late and overtaken by the "
+		       "ones behind them, a late GO confirmation, a board lost during the feature phase and spontaneous occupancy traffic during start-up; the dialogue is repeated through bidib_send_sys_reset. Oracle over the decoded downlink transcript of each start / reset: the multiset "
 		       "of FEATURE_SET messages equals the configured features of the connected boards (right address, nothing else) and all precede the single SYS_ENABLE; then CS GO "
 		       "to exactly the connected track outputs; then every configured initial point / signal / peripheral aspect of a connected board exactly once and every initial "
 		       "train function once per connected track output, encoded as the corresponding high-level command would (function-group bits accumulate); nothing for boards "
